@@ -314,6 +314,20 @@ theorem hg_algebra {g s : K} (hg0 : g ≠ 0) (hg1 : -1 < g) (hg2 : g < 1) (hs1 :
     linarith
 
 omit [HasSqrt K] in
+theorem hgCos_endpoints {g : K} (hg0 : g ≠ 0) (hg1 : -1 < g) (hg2 : g < 1) :
+    hgCos g (-1) = -1 ∧ hgCos g 1 = 1 := by
+  have hp : (1 + g) ≠ 0 := by linarith
+  have hm : (1 - g) ≠ 0 := by linarith
+  have e1 : (1 - g * g) / (1 + g * 1) = 1 - g := by
+    rw [mul_one, show 1 - g * g = (1 - g) * (1 + g) by ring, mul_div_assoc, div_self hp, mul_one]
+  have e2 : (1 - g * g) / (1 + g * -1) = 1 + g := by
+    rw [show 1 + g * -1 = 1 - g by ring, show 1 - g * g = (1 + g) * (1 - g) by ring, mul_div_assoc,
+      div_self hm, mul_one]
+  constructor
+  · simp only [hgCos, e2]; field_simp; ring
+  · simp only [hgCos, e1]; field_simp; ring
+
+omit [HasSqrt K] in
 /-- `numericalG` keeps the asymmetry parameter strictly inside `(-1,1)` and away from `0`. -/
 theorem hgNumericalG_range (k : Consts K) (h0 : 0 < k.hgEps) (h1 : k.hgEps ≤ k.hgMax) (h2 : k.hgMax < 1) (g : K) :
     hgNumericalG k g ≠ 0 ∧ -1 < hgNumericalG k g ∧ hgNumericalG k g < 1 := by
